@@ -34,11 +34,17 @@ type Config struct {
 	Strict    bool   `json:"strict"`
 	Base      string `json:"base"`     // resolver base URL
 	Mounting  string `json:"mounting"` // bare | mux | prefix
+	// Root, if set, is a root resource name that ends the base URL's context path (the deployment
+	// path is the context path without it); only resources below that root are called then.
+	Root string `json:"root,omitempty"`
 }
 
 var DefaultConfig = Config{Threshold: 0, Strict: true, Base: "http://h", Mounting: "bare"}
 
 func (c Config) String() string {
+	if c.Root != "" {
+		return fmt.Sprintf("threshold=%d strict=%v base=%s(ends in root resource %s) mounting=%s", c.Threshold, c.Strict, c.Base, c.Root, c.Mounting)
+	}
 	return fmt.Sprintf("threshold=%d strict=%v base=%s mounting=%s", c.Threshold, c.Strict, c.Base, c.Mounting)
 }
 
@@ -77,6 +83,12 @@ func NewWorld(u *schema.Universe, cfg Config, filters ...restli.Filter) *World {
 	ctxPath := ""
 	if bu, err := url.Parse(cfg.Base); err == nil {
 		ctxPath = strings.TrimSuffix(bu.Path, "/")
+		if cfg.Root != "" {
+			if !strings.HasSuffix(ctxPath, "/"+cfg.Root) {
+				report.Internal("base %q does not end in /%s", cfg.Base, cfg.Root)
+			}
+			ctxPath = strings.TrimSuffix(ctxPath, "/"+cfg.Root)
+		}
 	}
 	var srv restli.Server
 	switch {
